@@ -107,6 +107,17 @@ def judge(exe, job, res, pre=None):
     bad = []
     rec = dict(hist=[], traces=0)
     prog = P.from_json(job["ast"])
+    if "crash" in res:
+        # A program some needed variable of which raises under some joint assignment (zero divisor met on a branch that
+        # creation order would have rejected earlier, ...) has no specified law: outside the fragment.  The generator
+        # filters these (Spec.check_total); a replayed / corpus program that is partial BY THE SPEC'S OWN EVALUATION is
+        # counted as skipped.  A crash of a program the spec finds total stays a violation.
+        try:
+            P.Spec(prog).check_total()
+        except Exception as e:
+            rec["hist"].append(f"skipped:outside-fragment:partial-program({type(e).__name__})")
+            rec["skipped"] = True
+            return bad, rec
     for k in ("compile_error", "walk_error", "unsupported", "crash"):
         if k in res:
             kind = "correspondence" if k in ("walk_error", "unsupported") else "harness"
@@ -215,7 +226,7 @@ def main():
         c.violation("harness", "RNG oracle self-test failed (a shared random.random() value must be one real)",
                     dict(test="c01.oracle_selftest"), no_input=True)
     quick = c.tier == "quick"
-    nprog = int(os.environ.get("VERIF_C01_N", 64 if quick else 1000))
+    nprog = int(os.environ.get("VERIF_C01_N", 64 if quick else 800))
     shrunk_kinds = set()
     rng = c.rng
     jobs = []
@@ -254,7 +265,7 @@ def main():
         nr = sp.n_random()
         npaths = max([len(r) for r in res.get("runs", {}).values() if isinstance(r, list)] + [0])
         for n in job["maxits"]:
-            c.count((job["src"], n), nontrivial=(nr >= 2 and npaths > 1))
+            c.count((job["src"], n), nontrivial=(nr >= 2 and npaths > 1 and not rec.get("skipped")))
         c.hist(f"random_nodes={nr}")
         c.hist("mode2D" if job["mode2D"] else "mode3D")
         for st in prog["stmts"]:
